@@ -68,6 +68,7 @@ type C1 struct {
 	LibReq packet.Request
 
 	Reply   []byte // bytes the transport will deliver (before any terminal fault)
+	Full    []byte // the complete well-formed reply (Reply may be a prefix or a corruption of it)
 	IsExc   bool
 	ExcCode byte
 	Chunks  []Chunk
@@ -84,7 +85,8 @@ type C1 struct {
 	CancelAt    time.Duration // FCancelAt / FCtxDeadline: simulated time after the call starts
 	ErrWithData bool          // terminal error delivered together with the last prefix chunk
 
-	Hooks bool
+	Hooks        bool
+	ObserveParse bool // network clients only: build with modbus.NewClient and wrapped parse functions to see parser invocations
 }
 
 type hookRec struct {
@@ -121,6 +123,10 @@ type C1Outcome struct {
 	OverStep bool
 	Flushes  int
 	ConnErr  error
+
+	ParseCalls     int
+	ParseArg       []byte
+	ParseAfterHook bool // BeforeParse had already been called when the parser ran
 }
 
 // plainPort hides Flush so that the serial client sees a port without Flusher.
@@ -231,9 +237,34 @@ func RunC1(rc *RunCtx, sc *C1) *C1Outcome {
 			conf.Hooks = hooks
 		}
 		var c *modbus.Client
-		if sc.Kind == KTCP {
+		switch {
+		case sc.ObserveParse:
+			// the generic constructor honours ParseResponseFunc, which lets the harness see when (and with what)
+			// the parser is invoked; Do/do are the same code for every constructor
+			inner := packet.ParseTCPResponse
+			conf.AsProtocolErrorFunc = packet.AsTCPErrorPacket
+			if sc.Kind == KRTU {
+				inner = packet.ParseRTUResponseWithCRC
+				conf.AsProtocolErrorFunc = func(b []byte) error {
+					if !RTUConsistent(b) {
+						return nil
+					}
+					return packet.AsRTUErrorPacket(b)
+				}
+			}
+			conf.ParseResponseFunc = func(b []byte) (packet.Response, error) {
+				out.ParseCalls++
+				out.ParseArg = append([]byte(nil), b...)
+				if hooks != nil {
+					n := len(hooks.recs)
+					out.ParseAfterHook = n > 0 && hooks.recs[n-1].Kind == "parse"
+				}
+				return inner(b)
+			}
+			c = modbus.NewClient(conf)
+		case sc.Kind == KTCP:
 			c = modbus.NewTCPClientWithConfig(conf)
-		} else {
+		default:
 			c = modbus.NewRTUClientWithConfig(conf)
 		}
 		doer = c
